@@ -312,3 +312,109 @@ func VH07c_idseed() {
 	verif.Reach("idseed-done")
 	sock.Close()
 }
+
+// VH07d_late_response: directed family "survey A ended in way W, then a
+// response to it arrives while survey B is in progress". W: the survey time
+// (solver variable) expired / B superseded it / it had been answered and the
+// answer received. Neither the late response nor a response with an arbitrary
+// id other than B's (solver variable) is delivered; B's responses from both
+// respondents are, in arrival order; after B expired Recv fails with
+// ErrProtoState at once and a late response to B is not delivered either.
+func VH07d_late_response() {
+	lab := "C07/late-response"
+	ways := []string{"expired", "superseded", "answered"}
+	w := ways[verif.Choice("way", len(ways))]
+	lab += "/" + w
+	sock := vp.New("surveyor")
+	T := verif.Duration("survey-time")
+	verif.Assume(verif.And(T >= 1, T <= time.Hour))
+	side := vt.Listen(sock, "a")
+	pipes := []*vt.Pipe{side.Peer("r0"), side.Peer("r1")}
+	type endpoint interface {
+		Send([]byte) error
+		RecvMsg() (*mangos.Message, error)
+		SetOption(string, interface{}) error
+	}
+	var ep endpoint = sock
+	if verif.Choice("ctx", 2) == 1 {
+		c, err := sock.OpenContext()
+		verif.Assert(err == nil, lab+"/open-context")
+		ep = c
+	}
+	verif.Assert(ep.SetOption(mangos.OptionSurveyTime, T) == nil, lab+"/set-survey-time")
+	frame := func(id uint32, b byte) []byte { return []byte{byte(id >> 24), byte(id >> 16), byte(id >> 8), byte(id), b} }
+	lastID := func(tag byte) (uint32, bool) {
+		r := pipes[0].Sent
+		if len(r) == 0 || len(r[len(r)-1].H) != 4 || len(r[len(r)-1].B) != 1 || r[len(r)-1].B[0] != tag {
+			return 0, false
+		}
+		return be32(r[len(r)-1].H), true
+	}
+	verif.Assert(ep.Send([]byte{'A'}) == nil, lab+"/survey-A")
+	verif.Quiesce()
+	idA, okA := lastID('A')
+	verif.Assert(okA, lab+"/A-not-sent")
+	if !okA {
+		return
+	}
+	switch w {
+	case "expired":
+		t0 := verif.Now()
+		verif.Assert(verif.FireTimer(), lab+"/no-expiry-timer")
+		verif.Assert(verif.Now() >= t0+T, lab+"/survey-expired-early")
+		_, e := ep.RecvMsg()
+		verif.Assert(e == mangos.ErrProtoState, lab+"/recv-after-expiry-must-be-ErrProtoState")
+	case "superseded":
+	case "answered":
+		pipes[0].Deliver(frame(idA, 'a'))
+		verif.Quiesce()
+		m, e := ep.RecvMsg()
+		verif.Assert(e == nil && len(m.Body) == 1 && m.Body[0] == 'a', lab+"/first-response")
+	}
+	verif.Assert(ep.Send([]byte{'B'}) == nil, lab+"/survey-B")
+	verif.Quiesce()
+	idB, okB := lastID('B')
+	verif.Assert(okB, lab+"/B-not-sent-to-every-respondent")
+	if !okB {
+		return
+	}
+	verif.Assert(len(pipes[1].Sent) == len(pipes[0].Sent), lab+"/survey-not-sent-once-to-every-respondent")
+	verif.Assert(idB != idA && idB&0x80000000 != 0, lab+"/survey-ids")
+	var m *mangos.Message
+	var rerr error
+	rg := verif.Go("recv-B", func() { m, rerr = ep.RecvMsg() })
+	verif.Quiesce()
+	pipes[1].Deliver(frame(idA, 'l'))
+	verif.Quiesce()
+	verif.Assert(!rg.Done(), lab+"/late-response-to-the-previous-survey-delivered")
+	x := verif.Uint32("foreign-id")
+	verif.Assume(x != idB)
+	pipes[0].Deliver(frame(x, 'x'))
+	verif.Quiesce()
+	verif.Assert(!rg.Done(), lab+"/response-with-foreign-id-delivered")
+	if rg.Done() {
+		return
+	}
+	pipes[0].Deliver(frame(idB, 'b'))
+	pipes[1].Deliver(frame(idB, 'c'))
+	verif.Quiesce()
+	verif.Assert(rg.Done() && rerr == nil && len(m.Body) == 1 && m.Body[0] == 'b', lab+"/first-response-to-the-current-survey-not-delivered")
+	m2, e2 := ep.RecvMsg()
+	verif.Assert(e2 == nil && len(m2.Body) == 1 && m2.Body[0] == 'c', lab+"/second-respondents-response-not-delivered")
+	// B expires: Recv fails at once, and B's stragglers are dropped
+	for i := 0; i < 3 && verif.PendingTimers() > 0; i++ {
+		verif.FireTimer()
+	}
+	var e3 error
+	g3 := verif.Go("recv-after", func() { _, e3 = ep.RecvMsg() })
+	verif.Quiesce()
+	verif.Assert(g3.Done() && e3 == mangos.ErrProtoState, lab+"/recv-after-expiry-must-be-ErrProtoState")
+	pipes[0].Deliver(frame(idB, 'z'))
+	verif.Quiesce()
+	var e4 error
+	g4 := verif.Go("recv-straggler", func() { _, e4 = ep.RecvMsg() })
+	verif.Quiesce()
+	verif.Assert(g4.Done() && e4 == mangos.ErrProtoState, lab+"/response-after-expiry-delivered")
+	verif.Reach("late-response-checked")
+	sock.Close()
+}
